@@ -170,7 +170,10 @@ def judge_printed(ctx, printed, ast_norm, version, route, witness):
         ctx.skip("third-party validator crashed on printed text")
         return None
     if errs:
-        ctx.violation(vkey("printed-invalid", ast_norm), "printed pattern is not valid: %s" % errs[0][:120], dict(witness, route=route, printed=printed, validator_error=errs[0][:300]))
+        key = vkey("printed-invalid", ast_norm)
+        if key == "printed-invalid" and route == "assembled-with-shorthands" and ("LIKE t'" in printed or "MATCHES t'" in printed):
+            key = "printed-invalid:string-shorthand-printed-as-timestamp"
+        ctx.violation(key, "printed pattern is not valid: %s" % errs[0][:120], dict(witness, route=route, printed=printed, validator_error=errs[0][:300]))
         return None
     try:
         back = P.normalize(P.read(printed, version))
@@ -220,6 +223,42 @@ def build_const(c):
     raise KeyError(k)
 
 
+def native_const(c, strings_only=False):
+    """the same constant as the plain Python value the model classes document as a shorthand; KeyError where there is none"""
+    import datetime as dt
+    k = c[0]
+    if k == "str":
+        # (LIKE and MATCHES take nothing but a string: there even such text can only mean one)
+        if tsor.text_us(c[1]) is not None and not strings_only:
+            raise KeyError("text which reads as a timestamp stands for a timestamp constant")
+        return c[1]
+    if k == "int":
+        return c[1]
+    if k == "float":
+        return float(c[1])
+    if k == "bool":
+        return c[1]
+    if k == "ts":
+        return dt.datetime(1, 1, 1, tzinfo=dt.timezone.utc) + dt.timedelta(microseconds=c[1])
+    if k == "set":
+        return [native_const(x) for x in c[1]]
+    raise KeyError("no plain Python value stands for a %s constant" % k)
+
+
+def path_text(p):
+    """the path in the text form the comparison classes accept instead of an ObjectPath; KeyError when a step needs quoting"""
+    t, steps = p
+    out = ""
+    for j, s in enumerate(steps):
+        if s[0] == "i":
+            out += "[%s]" % s[1]
+        else:
+            if P.needs_quote(s[1]) or not s[1].isascii() or "." in s[1] or "[" in s[1]:
+                raise KeyError("step needs quoting")
+            out += ("." if j else "") + s[1]
+    return t + ":" + out
+
+
 def build_path(p):
     import stix2.patterns as sp
     t, steps = p
@@ -246,35 +285,56 @@ CLS = {"=": "EqualityComparisonExpression", "<": "LessThanComparisonExpression",
        "ISSUPERSET": "IsSupersetComparisonExpression"}
 
 
-def build(e, parent_prec=0):
-    """model objects for an own tree; grouping is expressed with ParentheticalExpression where precedence needs it"""
+def build(e, parent_prec=0, shorthand=None):
+    """model objects for an own tree; grouping is expressed with ParentheticalExpression where precedence needs it.
+    shorthand: a random source -- constants, paths and qualifier arguments are then given, where possible, in the plain Python forms
+    the model classes accept in place of their own objects (str / int / float / bool / list / datetime values, 'type:path' text)"""
     import stix2.patterns as sp
     k = e[0]
     if k == "cmp":
         _, path, op, neg, c = e
         if op in ("!=", "<>"):
             op, neg = "=", not neg
-        node = getattr(sp, CLS[op])(build_path(path), build_const(c), neg)
+        lhs, rhs = build_path(path), build_const(c)
+        if shorthand is not None:
+            if shorthand.random() < 0.7:
+                try:
+                    rhs = native_const(c, strings_only=op in ("LIKE", "MATCHES"))
+                except KeyError:
+                    pass
+            if shorthand.random() < 0.5:
+                try:
+                    lhs = path_text(path)
+                except KeyError:
+                    pass
+        node = getattr(sp, CLS[op])(lhs, rhs, neg)
     elif k == "exists":
         raise KeyError("EXISTS has no model class")
     elif k in ("and", "or"):
-        node = (sp.AndBooleanExpression if k == "and" else sp.OrBooleanExpression)([build(x, P.PREC[k]) for x in e[1]])
+        node = (sp.AndBooleanExpression if k == "and" else sp.OrBooleanExpression)([build(x, P.PREC[k], shorthand) for x in e[1]])
     elif k == "obs":
-        node = sp.ObservationExpression(build(e[1], 0))
+        node = sp.ObservationExpression(build(e[1], 0, shorthand))
     elif k in ("oand", "oor", "ofb"):
         cls = {"oand": sp.AndObservationExpression, "oor": sp.OrObservationExpression, "ofb": sp.FollowedByObservationExpression}[k]
-        node = cls([build(x, P.PREC[k]) for x in e[1]])
+        node = cls([build(x, P.PREC[k], shorthand) for x in e[1]])
     elif k == "qual":
         q = e[2]
         if q[0] == "repeats":
             qual = sp.RepeatQualifier(q[1])
         elif q[0] == "within":
             if float(q[1]) != int(q[1]):
-                raise KeyError("WithinQualifier takes whole seconds only")
-            qual = sp.WithinQualifier(int(q[1]))
+                if shorthand is None:
+                    raise KeyError("WithinQualifier takes whole seconds only")
+                qual = sp.WithinQualifier(float(q[1]))
+            else:
+                qual = sp.WithinQualifier(int(q[1]) if shorthand is None or shorthand.random() < 0.5 else sp.IntegerConstant(int(q[1])))
+        elif shorthand is not None and shorthand.random() < 0.6:
+            import datetime as dt
+            mk = lambda us: dt.datetime(1, 1, 1, tzinfo=dt.timezone.utc) + dt.timedelta(microseconds=us)     # noqa: E731
+            qual = sp.StartStopQualifier(mk(q[1]), mk(q[2]))
         else:
             qual = sp.StartStopQualifier(sp.TimestampConstant(tsor.format_us(q[1], "any")), sp.TimestampConstant(tsor.format_us(q[2], "any")))
-        node = sp.QualifiedObservationExpression(build(e[1], 4), qual)
+        node = sp.QualifiedObservationExpression(build(e[1], 4, shorthand), qual)
     else:
         raise KeyError(k)
     if P.PREC[k] < parent_prec:
@@ -289,6 +349,11 @@ def wl_patterns(ctx, rng, i):
         mk = lambda t: (lambda c: ("cmp", (t, c[1][1])) + tuple(c[2:]))(P.gen_cmp(rng, exists_ok=False))    # noqa: E731
         ast = ("obs", ("and", [mk("file"), mk("process")]))
         ctx.count("cross_type_and_patterns")
+    if i % 40 in (11, 31):
+        # the string-only operators with a string that reads as something else (a timestamp, a number, a boolean)
+        c0 = P.gen_cmp(rng, exists_ok=False)
+        ast = ("obs", ("cmp", c0[1], "LIKE" if i % 40 == 11 else "MATCHES", rng.random() < 0.3, ("str", rng.choice(["2020-01-01T00:00:00Z", "2016-06-01T12:30:45.5Z", "1", "true", "1.5"]))))
+        ctx.count("string_only_operator_patterns")
     text = P.to_text(ast, rng)
     errs = validate_text(text)
     if errs is None or errs:
@@ -346,6 +411,19 @@ def wl_patterns(ctx, rng, i):
     if model is not None:
         ctx.count("assembled")
         judge_printed(ctx, ptxt, norm, "2.1", "assembled", dict(w, canonical_text=P.to_text(ast)))
+        # ... and once more with the plain Python shorthands the classes accept for constants, paths and qualifier arguments
+        try:
+            with warnings.catch_warnings():
+                warnings.simplefilter("ignore")
+                stxt = str(build(ast, 0, rng))
+            ctx.count("assembled_with_shorthands")
+            judge_printed(ctx, stxt, norm, "2.1", "assembled-with-shorthands", dict(w, canonical_text=P.to_text(ast)))
+        except KeyError:
+            pass
+        except Exception as e:
+            ctx.ev()
+            ctx.violation("assembly-raised:shorthand:" + type(e).__name__, "assembling the pattern with plain Python values raised %s: %s" % (type(e).__name__, str(e)[:120]),
+                          dict(w, canonical_text=P.to_text(ast), exception=repr(e)[:300]))
     if ctx.want_sample() and printed and len(feats) > 5:
         ctx.sample({"source": text, "printed": printed, "assembled_prints": None if model is None else ptxt})
     ctx.count("patterns")
@@ -427,7 +505,63 @@ def wl_operand_reuse(ctx, rng, i):
         ctx.violation("operand-changed-by-expression", "the same operands print differently after %s" % (steps,), dict(w, history=steps, before=[before_and, before_or], after=[after_and, after_or]))
 
 
+def wl_model_arguments(ctx, rng, i):
+    """Arguments at and beyond the edge of what the model classes can write: each is refused, or the pattern it is part of prints as valid text."""
+    import stix2.patterns as sp
+    path = sp.ObjectPath("file", [sp.BasicObjectPathComponent("size", False)])
+    inf = float("inf")
+    cases = [
+        ("FloatConstant(inf)", lambda: sp.FloatConstant(inf)), ("FloatConstant(-inf)", lambda: sp.FloatConstant(-inf)), ("FloatConstant(nan)", lambda: sp.FloatConstant(float("nan"))),
+        ("FloatConstant('nan')", lambda: sp.FloatConstant("nan")), ("FloatConstant(1e308)", lambda: sp.FloatConstant(1e308)), ("FloatConstant(5e-324)", lambda: sp.FloatConstant(5e-324)),
+        ("FloatConstant(-0.0)", lambda: sp.FloatConstant(-0.0)), ("FloatConstant('1e5')", lambda: sp.FloatConstant("1e5")),
+        ("HexConstant(newline)", lambda: sp.HexConstant("ffd8\n")), ("HexConstant(odd)", lambda: sp.HexConstant("abc")), ("HexConstant(space)", lambda: sp.HexConstant("ff d8")),
+        ("HexConstant(fullwidth)", lambda: sp.HexConstant("\uff11\uff12")), ("HexConstant(empty)", lambda: sp.HexConstant("")),
+        ("BinaryConstant(foreign character)", lambda: sp.BinaryConstant("AAA@A==")), ("BinaryConstant(newline)", lambda: sp.BinaryConstant("aGVsbG8=\n")),
+        ("BinaryConstant(blank)", lambda: sp.BinaryConstant("aGVs bG8=")), ("BinaryConstant(no padding)", lambda: sp.BinaryConstant("aGVsbG8")), ("BinaryConstant(quote)", lambda: sp.BinaryConstant("AA'AA")),
+        ("IntegerConstant(5.9)", lambda: sp.IntegerConstant(5.9)), ("IntegerConstant('7')", lambda: sp.IntegerConstant("7")), ("IntegerConstant(True)", lambda: sp.IntegerConstant(True)),
+        ("IntegerConstant(inf)", lambda: sp.IntegerConstant(inf)), ("IntegerConstant(10**40)", lambda: sp.IntegerConstant(10 ** 40)),
+        ("StringConstant(quote and backslash)", lambda: sp.StringConstant("a'b\\c\\'")), ("StringConstant(newline)", lambda: sp.StringConstant("a\nb")), ("StringConstant(NUL)", lambda: sp.StringConstant("a\x00b")),
+        ("TimestampConstant(newline)", lambda: sp.TimestampConstant("2020-01-01T00:00:00Z\n")), ("TimestampConstant(offset)", lambda: sp.TimestampConstant("2020-01-01T00:00:00+01:00")),
+        ("TimestampConstant(date)", lambda: sp.TimestampConstant("2020-01-01")), ("BooleanConstant('maybe')", lambda: sp.BooleanConstant("maybe")), ("BooleanConstant(2)", lambda: sp.BooleanConstant(2)),
+        ("ListConstant(empty)", lambda: sp.ListConstant([])), ("ListConstant(nested)", lambda: sp.ListConstant([[1, 2], 3])), ("ListConstant(mixed)", lambda: sp.ListConstant([1, "a", 2.5, True])),
+    ]
+    quals = [("RepeatQualifier(-1)", lambda: sp.RepeatQualifier(-1)), ("RepeatQualifier(0)", lambda: sp.RepeatQualifier(0)), ("RepeatQualifier(2.0)", lambda: sp.RepeatQualifier(2.0)),
+             ("RepeatQualifier(True)", lambda: sp.RepeatQualifier(True)), ("RepeatQualifier(10**30)", lambda: sp.RepeatQualifier(10 ** 30)),
+             ("WithinQualifier(-1.5)", lambda: sp.WithinQualifier(-1.5)), ("WithinQualifier(-1)", lambda: sp.WithinQualifier(-1)), ("WithinQualifier(0)", lambda: sp.WithinQualifier(0)),
+             ("WithinQualifier(inf)", lambda: sp.WithinQualifier(inf)), ("WithinQualifier(1e20)", lambda: sp.WithinQualifier(1e20)), ("WithinQualifier(1e-7)", lambda: sp.WithinQualifier(1e-7)),
+             # (string operands of START / STOP are the STIX 2.0 form of the qualifier and are not judged by the 2.1 grammar used here)
+             ("StartStopQualifier(stop before start)", lambda: sp.StartStopQualifier(sp.TimestampConstant("2020-01-02T00:00:00Z"), sp.TimestampConstant("2020-01-01T00:00:00Z")))]
+    allc = [("constant", n, f) for n, f in cases] + [("qualifier", n, f) for n, f in quals]
+    if i >= len(allc):
+        return
+    kind, name, fn = allc[i]
+    ctx.ev()
+    ctx.count("model_arguments")
+    ctx.nontrivial("model-argument", name)
+    try:
+        with warnings.catch_warnings():
+            warnings.simplefilter("ignore")
+            part = fn()
+            if kind == "constant":
+                op = sp.InComparisonExpression if isinstance(part, sp.ListConstant) else sp.EqualityComparisonExpression
+                text = str(sp.ObservationExpression(op(path, part)))
+            else:
+                text = str(sp.QualifiedObservationExpression(sp.ObservationExpression(sp.EqualityComparisonExpression(path, sp.IntegerConstant(1))), part))
+    except (ValueError, TypeError, OverflowError):
+        ctx.count("model_arguments_refused")
+        return
+    except Exception as e:
+        ctx.violation("assembly-raised:" + type(e).__name__, "%s raised %s: %s" % (name, type(e).__name__, str(e)[:120]), {"argument": name, "exception": repr(e)[:300]})
+        return
+    errs = validate_text(text)
+    ctx.count("model_arguments_printed")
+    if errs:
+        ctx.violation("printed-invalid:unvalidated-model-argument", "%s was accepted and prints %r, which is not a valid pattern: %s" % (name, text[:120], errs[0][:100]),
+                      {"argument": name, "printed": text, "validator_error": errs[0][:300]})
+
+
 WORKLOADS = [
+    Workload("model-arguments", wl_model_arguments, quick=46, thorough=46),
     Workload("operand-reuse", wl_operand_reuse, quick=60, thorough=3000),
     Workload("patterns", wl_patterns, quick=1500, thorough=200000),
     Workload("grammar20", wl_v20, quick=300, thorough=40000),
